@@ -64,9 +64,9 @@ Definition reader_reading (s : st) (c : nat) : bool :=
   existsb (fun r => Nat.eqb (fst r) c && match snd r with RReading => true | _ => false end) (readers s).
 
 Definition reply_runnable (s : st) (cl : call) : bool :=
-  match c_pc cl with
-  | CAwait c => c_ready cl && negb (mem c (lost s)) && reader_reading s c
-  | _ => false
+  match c_on cl with
+  | Some c => c_ready cl && negb (mem c (lost s)) && reader_reading s c
+  | None => false
   end.
 
 Definition waiters (s : st) : list owner :=
